@@ -169,11 +169,11 @@ ADDENDA = {
     "C08": "Extended: repair on 513/1025-transaction chains.",
     "C09": "Extended: id text-extension rules, percent-escaped thumbprint, byte-for-byte republication by an outsider, publicKeyJwk declaring its own kid, RSA and Ed25519 verification methods. Round 5: 19 uniqueness rules with realistic mixed-case service types/ids in seven arrangements; update-style transactions for DIDs no version of which is known (4 target kinds x 9 payload shapes x prev choices) followed by the rightful creation.",
     "C11": "Extended: signed revocations (genuine + 7 forgeries, hosted did:web), re-issue racing revocations, stored lists aged (document and expiry column) to 20 min left / 1 h / 5 h past expiry. Round 5/6: every revoked-must-fail verdict also at 8 explicit validation times around issuance and revocation through 5 routes (signed network revocations and status-list revocations); SQL fault enumeration below the status-list store (gorm callbacks on the node's DB + SQLite ABORT triggers over every statement of revoke/issue/roll-over/serve; what the node reported must show afterwards); multi-entry credentialStatus arrays (revoked entry at every position of 2-4 entries x 14 neighbour kinds).",
-    "C12": "Extended: same-id and id-less twin credentials with the map forged at the twin; typeless filters refuted by the reference, edge batch of filter vocabulary (enum+pattern, enum+const), one-sided verifier probes on single-descriptor definitions.",
-    "C13": "Extended: node configurations with one method and a mid-sequence upgrade, single-change and no-op operations, failing clean-up transaction, operations on deactivated subjects, 8 subject-name families with ~45 look-alike lookups per name and operations on names no subject has.",
+    "C12": "Extended: same-id and id-less twin credentials with the map forged at the twin; typeless filters refuted by the reference, edge batch of filter vocabulary (enum+pattern, enum+const), one-sided verifier probes on single-descriptor definitions. Round 6: requirement-tree batch (2-4 groups of 1-3 descriptors, from_nested at depth 2-3 with all / pick count,min,max bounds leaning to >=2, steered wallets) judged by a reference extended to nested trees (upper bound per level; completeness for trees without overlap or vacuous children).",
+    "C13": "Extended: node configurations with one method and a mid-sequence upgrade, single-change and no-op operations, failing clean-up transaction, operations on deactivated subjects, 8 subject-name families with ~45 look-alike lookups per name and operations on names no subject has. Round 5: every snapshot also holds the dependent rows of the latest version as the manager reads them (services, verification methods, key presence) and FindServices per type; a different fault-free operation follows every second not-took-effect case and is judged as previous version + that operation.",
     "C14": "Extended: must-refuse offers, offers failing in the store and repeated offers woven into every scenario; completions recorded by another party at three positions x five receiver outcomes; torn ledger tails ignored by shape. Round 5: single-operation fault matrix in the parent process (a decorating store fails exactly one Get/Put/Delete/Iterate/Range or the commit of every Add / Add-with-payload / WritePayload incl. the nested private write, each position in turn; unparsable job record; subscriber on another database): admitted => delivered or still replayable, not admitted => delivered to nobody.",
-    "C15": "Extended: redelivery of admitted transactions (8 payload variants, range and list conversations), same-payload-hash alias transactions (incl. empty pal header), the real Network.CreateTransaction with 27+ participant situations (ground truth = the list the application asked for), serving while the own document is deactivated/unresolvable.",
-    "C16": "Extended: three-credential service (clause x position x neighbour expiry), hosted did:web identities whose documents fail and heal between client passes, mixes of never/now/later verifiable entries on two services.",
+    "C15": "Extended: redelivery of admitted transactions (8 payload variants, range and list conversations), same-payload-hash alias transactions (incl. empty pal header), the real Network.CreateTransaction with 27+ participant situations (ground truth = the list the application asked for), serving while the own document is deactivated/unresolvable. Round 5: shared-identity connection lists (13 kinds of twin connection sharing peer ID, node DID, address or Peer.Key() with a participant x 5 registration/reconnect histories), every query type over every connection.",
+    "C16": "Extended: three-credential service (clause x position x neighbour expiry), hosted did:web identities whose documents fail and heal between client passes, mixes of never/now/later verifiable entries on two services. Round 5: real expiry (4-6 s entries, stopwatch-guarded wait, server still serving the unpruned successor) with an offered-to-poll oracle; 8 retraction defect classes + a directed retraction sweep per world; resets with the new last timestamp above / equal / below the stored one.",
     "C17": "Extended: one attacker key per JWK family (EC P-256/384/521, RSA, Ed25519, X25519, oct) in every private form, really signed, for every consumer; did:jwk kid of a private key; hosted did:web kid-other-party. Round 5: eighth consumer access-token-v1 (legacy introspect/verify endpoints) incl. a foreign-signer class (8 resolvable foreign signers) and a key-store fault dimension (decorated key store of the running node, 4 fault modes).",
     "C18": "Round 5: notable-port generator (scheme defaults, their neighbours and look-alikes, range boundaries) for every ported identifier, port sweep (57 notable ports x 9 path shapes x 14 host shapes; every port 1..65535 in thorough) through both round-trip laws, collapse monitor (two distinct in-class identifiers/URLs never convert to the same result).",
     "C19": "Extended to 79 entry points: hostile remote server behind the real caching HTTP clients (length/caching-header/cache-state grid, consumption bound), status-list refresh sequences, discovery client answers, PE descriptor x requirement x credential grid (also through discovery search and the token endpoint), DAG state x relation x clock grid in a child process with an allocation budget, key-shape x alg grid over 9 entry points.",
